@@ -1,0 +1,14 @@
+//go:build verif
+
+package admin
+
+import (
+	"github.com/onosproject/onos-config/pkg/pluginregistry"
+	"github.com/onosproject/onos-config/pkg/store/v2/configuration"
+	"github.com/onosproject/onos-config/pkg/store/v2/transaction"
+)
+
+// NewServerForVerif exposes the server to the verification harness
+func NewServerForVerif(transactionsStore transaction.Store, configurationsStore configuration.Store, pluginRegistry pluginregistry.PluginRegistry) Server {
+	return Server{transactionsStore: transactionsStore, configurationsStore: configurationsStore, pluginRegistry: pluginRegistry}
+}
